@@ -232,6 +232,34 @@ for _pid, _nt, _txt in [("C09", "length >= 2", "TreeWF/EndpointsWF hold on every
         note="Trusted: TLC, Json module, the projection in harness/internal/proj (uses the real ParseKey), the renderer of declarations to D2 text in harness/cmd/vdrive/ir.go.")
 
 
+# ---------------------------------------------------------------------------------- irglob (C12)
+def corrupt_irglob(lines, pid):
+    for e in lines:
+        if e.get("ev") == "decl" and e.get("err") == 0 and "*" in e.get("text", "") and e["obs"]["objs"]:
+            o = e["obs"]["objs"][0]
+            o["shape"] = "square" if o["shape"] != "square" else "oval"
+            return "shape of an observed object changed after a glob declaration"
+    return None
+
+
+_GLOB_RENAMES = {"ir_alphabet.json": "ir_alphabet_glob.json"}
+FAMILIES["irglob"] = dict(vdrive="ir", trace_module="TraceD2IR", trace_cfg="TraceD2IR_glob.cfg", corrupt=corrupt_irglob, engine="TraceD2IR",
+                          args={"alphabet": _os.path.join(_SPECS, "ir_alphabet_glob.json")}, chunk=6000, heap="4g", renames=_GLOB_RENAMES)
+PROPS["C12"] = dict(
+    family="irglob", level="model_checking", design_ref="4.4",
+    technique="globs as standing rules in the TLA+ reference interpreter D2IR (applied to existing targets at the declaration, to later targets at their creation, before the creating declaration's own value), model-checked by TLC (GlobNow, GlobLater); every compiled program prefix compared by TLC with the model",
+    base=dict(quick=[dict(module="D2IR", cfg="D2IR_glob.cfg", renames=_GLOB_RENAMES)],
+              thorough=[dict(module="D2IR", cfg="D2IR_glob_thorough.cfg", renames=_GLOB_RENAMES, timeout=1800)]),
+    rule="programs over the 24-declaration alphabet specs/ir_alphabet_glob.json: objects at depth 1-3 (one mixed-case), explicit shapes/strokes/labels, object nulls, connections, and 9 glob rules "
+         "(* and ** at the root, scoped a.* and a.**, b.*, prefix pattern a*, suffix pattern *2) setting shape, label, stroke, opacity; every program of length <= 2 / <= 3 plus 2500 / 30000 seeded programs of length up to 7 / 10. "
+         "Non-trivial: contains a glob and at least one more declaration.",
+    exhaustive=dict(quick=True, thorough=True),
+    assumptions=["object globs with scalar bodies only; glob filters, edge globs, triple globs across boards/imports and globs written inside a nested map are not in this alphabet",
+                 "pattern matching on names is the alphabet's match table (TLC cannot compute on characters); the real matcher decides which names each pattern selects in the code"] + _ir_assume,
+    text="GlobNow/GlobLater hold as action properties over every program within the bound; the real compiler's object attributes after every prefix must equal the model's, which applies each rule to existing and later-created targets in source order.",
+    note="Trusted: TLC, Json module, the projection and renderer in the harness, the alphabet's pattern-match table.")
+
+
 # ------------------------------------------------------------------------------- manifest data
 HOOK_COMMITS = ["9d004ebd4", "879b5d739"]
 
